@@ -99,28 +99,95 @@ def run_impl(sp):
     return call(f)
 
 
-def build(sp):
-    """the real analyzer for a spec, with the input objects (kept for the mutation snapshots)"""
+def fits(vals, dt):
+    """can the float64 values be stored in dtype `dt` without changing them (the spec's numbers ARE the recording:
+    the model and the oracle read them as the exact float64 embedding of the stored values)"""
+    a = np.array(vals, dtype=float)
+    if not np.all(np.isfinite(a)):
+        return False
+    with warnings.catch_warnings():
+        warnings.simplefilter('ignore')
+        try:
+            if np.dtype(dt).kind in 'iu':
+                info = np.iinfo(np.dtype(dt))
+                if a.size and (a.min() < info.min or a.max() > info.max or np.any(a != np.round(a))):
+                    return False
+            return bool(np.array_equal(a.astype(dt).astype(float), a))
+        except Exception:  # noqa
+            return False
+
+
+def as_stored(vals, dt, readonly=False):
+    """the numbers of the spec as an array of the recording's dtype (float64 when none is named or the values do not
+    fit: derived specs -- linear combinations, gains -- may leave the type's range)"""
+    a = np.array(vals, dtype=float)
+    if dt and fits(vals, dt):
+        a = a.astype(dt)
+    if readonly:
+        a.flags.writeable = False
+    return a
+
+
+def interval_arg(sp):
+    """the sampling interval in the form the spec asks for: number (default), time object, or the rate instead"""
+    ts = nt()[0]
+    form = sp.get('ctor', 'si')
+    if form == 'sitime':
+        t = ts.TimeArray(np.int64(si_ps(sp['si'], sp['unit'])), time_unit='ps')
+        t.convert_unit(sp['unit'])
+        return dict(sampling_interval=t)
+    if form == 'rate' and sp['unit'] == 's' and float(sp['si']) in (2.0, 1.0, 0.5, 0.25):
+        return dict(sampling_rate=1.0 / float(sp['si']))
+    return dict(sampling_interval=sp['si'])
+
+
+def build(sp, shared=None):
+    """the real analyzer for a spec, with the input objects (kept for the mutation snapshots).  `shared` = (T, E) of
+    another analyzer built from the same recording (two analyzers on the SAME input objects)"""
     ts, ERA, tsu = nt()
     nch, N = sp['nch'], sp['N']
-    data = np.array(sp['data'], dtype=float)
-    data = data.reshape((nch, N)) if nch else data
-    T = ts.TimeSeries(data, sampling_interval=sp['si'], time_unit=sp['unit'])
-    if sp['kind'] == 'series' or sp.get('base') == 'series':
-        ev = np.array(sp['ev'], dtype=float if sp.get('evfloat') else int)
-        ev = ev.reshape((sp['evch'], N)) if sp['evch'] else ev
-        E = ts.TimeSeries(ev, sampling_interval=sp['si'], time_unit=sp['unit'])
+    if shared is not None:
+        T, E = shared
     else:
-        E = ts.Events(ts.TimeArray(np.array(sp['times'], dtype=np.int64), time_unit='ps'))
-    a = ERA(T, E, sp['L'], zscore=bool(sp.get('zs')), correct_baseline=bool(sp['cb']), offset=sp['off'])
+        data = as_stored(sp['data'], sp.get('dtype'), sp.get('ro'))
+        data = data.reshape((nch, N)) if nch else data
+        T = ts.TimeSeries(data, time_unit=sp['unit'], **interval_arg(sp))
+        if sp['kind'] == 'series' or sp.get('base') == 'series':
+            ev = np.array(sp['ev'], dtype=float if sp.get('evfloat') else int)
+            if sp.get('evdtype'):
+                ev = as_stored(sp['ev'], sp['evdtype'], sp.get('ro'))
+            ev = ev.reshape((sp['evch'], N)) if sp['evch'] else ev
+            E = ts.TimeSeries(ev, time_unit=sp['unit'], **interval_arg(sp))
+        else:
+            tm = ts.TimeArray(np.array(sp['times'], dtype=np.int64), time_unit='ps')
+            if sp.get('evunit'):
+                tm.convert_unit(sp['evunit'])
+            if sp.get('evcols'):     # an Events object that carries data columns besides the times
+                k = len(sp['times'])
+                E = ts.Events(tm, amp=np.arange(k) * 1.5 + 7, code=np.arange(k)[::-1] % 3 + 2, indices=[list(range(k))], labels=['trial'])
+            else:
+                E = ts.Events(tm)
+    off, L = sp['off'], sp['L']
+    if sp.get('offform') == 'npint':
+        off = np.int64(off)
+    if sp.get('lenform') == 'float':
+        L = float(L)
+    elif sp.get('lenform') == 'npint':
+        L = np.int32(L)
+    a = ERA(T, E, L, zscore=bool(sp.get('zs')), correct_baseline=bool(sp['cb']), offset=off)
     return a, T, E
 
 
 def read(a, w):
-    return {'fir': lambda: a.FIR, 'eta': lambda: a.eta, 'ets': lambda: a.ets, 'etdata': lambda: a.et_data}[w]()
+    return {'fir': lambda: a.FIR, 'eta': lambda: a.eta, 'ets': lambda: a.ets, 'etdata': lambda: a.et_data,
+            'xcorr': lambda: a.xcorr_eta}[w]()
 
 
 def canon_read(w, obj):
+    if w == 'xcorr':      # not modelled: only ever compared with another read of the real code (bit pattern)
+        d = np.asarray(obj.data, dtype=complex).reshape(-1)
+        return 'ok t0=%d si=%d shape=%s data=%s' % (int(np.asarray(obj.t0)), int(np.asarray(obj.sampling_interval)), ilist(np.asarray(obj.data).shape),
+                                                    flist([v for z in d for v in (z.real, z.imag)]))
     if w != 'etdata':
         return canon_ts(obj)
     blocks, vals, t0s, sis = [], [], set(), set()
@@ -153,13 +220,16 @@ def snapshot(a, T, E):
     return {'input-series': _bytes(T), 'input-events': _bytes(E), 'stored-data': _bytes(a.data), 'stored-events': _bytes(a.events)}
 
 
-def run_sequence(sp, order):
+def run_sequence(sp, order, scrib=False):
     """read the outputs in `order` on one analyzer; returns per read: canonical result, which snapshots
-    changed across the read; and afterwards the canonical form of every EARLIER returned object again"""
+    changed across the read; and afterwards the canonical form of every EARLIER returned object again.
+    `scrib`: the caller overwrites, in place, every array of each result right after it was handed out (it is the
+    caller's to do with as it likes); `again` then holds, per read, which inputs / stored arrays THAT changed."""
+    import histories
     with warnings.catch_warnings():
         warnings.simplefilter('ignore')
         a, T, E = build(sp)
-        firsts, objs, mutated = [], [], []
+        firsts, objs, mutated, aliased = [], [], [], []
         for w in order:
             before = snapshot(a, T, E)
             try:
@@ -171,6 +241,12 @@ def run_sequence(sp, order):
             mutated.append(sorted(k for k in before if before[k] != after[k]))
             firsts.append(c)
             objs.append(o)
+            if scrib and o is not None:
+                histories.scribble(o)
+                later = snapshot(a, T, E)
+                aliased.append(sorted(k for k in after if after[k] != later[k]))
+        if scrib:
+            return firsts, mutated, aliased
         again = [canon_read(w, o) if o is not None else c for w, o, c in zip(order, objs, firsts)]
     return firsts, mutated, again
 
@@ -186,17 +262,31 @@ def same_out(sp, w, x, y):
     a, b = parse_out(x), parse_out(y)
     if a is None or b is None or a[0] != b[0]:
         return False
-    if w == 'etdata':
+    if w in ('etdata', 'xcorr'):
         return len(a[1]) == len(b[1]) and all(p == q or (p != p and q != q) for p, q in zip(a[1], b[1]))
     q = dict(sp)
     q['what'] = w
     return close_per_channel(q, a[1], b[1], 1e-12)
 
 
+def with_xcorr(sp, order):
+    """the order with reads of `xcorr_eta` (not modelled; judged against a fresh analyzer only) put in front of, between
+    and after the modelled reads, when the spec asks for it and xcorr_eta is defined for the spec"""
+    if not sp.get('xc') or sp.get('base', sp['kind']) != 'series' or 'xcorr' in order:
+        return list(order)
+    q = dict(sp)
+    q.update(kind='series', what='xcorr')
+    if not run_impl(q).startswith('ok'):
+        return list(order)
+    k = sp['xc'] % (len(order) + 1)
+    return list(order[:k]) + ['xcorr'] + list(order[k:]) + (['xcorr'] if sp['xc'] % 2 else [])
+
+
 def sequence_failures(sp, order):
     """property-level: any read order on one object gives what a fresh analyzer gives for that output alone
     (and the planted truth), never changes the inputs / stored arrays, and never changes results handed out
     earlier.  Returns every kind of failure seen (one per key)."""
+    order = with_xcorr(sp, order)
     fresh = {}
     for w in order:
         q = dict(sp)
@@ -208,6 +298,15 @@ def sequence_failures(sp, order):
 
     def add(key, what):
         out.setdefault(key, Failure(key, what, dict(rp)))
+    if sp.get('scrib'):
+        # the caller overwrites every result as soon as it has it: no input / stored array may change through that
+        # (a result must not be a view of the analyzer's arrays), and the later reads still equal a fresh analyzer's
+        firsts, mutated, aliased = run_sequence(sp, order, scrib=True)
+        for i, w in enumerate(order):
+            if aliased[i]:
+                add('sequence/%s/result-aliases-input' % w, 'overwriting the %s result in place (order %s, offset %d) changed %s' % (
+                    w, '>'.join(order), sp['off'], ','.join(aliased[i])))
+        again = firsts
     for i, w in enumerate(order):
         if mutated[i]:
             add('sequence/%s/input-mutated' % w, 'reading %s (order %s, offset %d) changed %s' % (
@@ -223,6 +322,8 @@ def sequence_failures(sp, order):
             add('sequence/%s-then-%s/value' % (first, w), '%s read after %s on the same analyzer (offset %d) differs from a fresh analyzer: %s vs %s' % (
                 w, '>'.join(order[:i]), sp['off'], firsts[i][:120], fresh[w][:120]))
     for i, w in enumerate(order):
+        if w == 'xcorr':
+            continue
         q = dict(sp)
         q.update(kind=sp.get('base', sp['kind']), what=w)
         q.pop('order', None)
@@ -437,35 +538,60 @@ def gen_placement(rng, N, L, off, codes, separated, per_type_min=1):
     return ev
 
 
-def gen_series(rng, tier, what, big=False, positive=False, off=None):
+def row_code_sets(rng, C, what, positive=False):
+    """one set of event codes PER ROW of a 2-d event series, the sets differing between rows (row 0 {1,2}, row 1
+    {1,3}; disjoint sets; negative codes in one row only ...).  FIR / eta / ets stack the rows into one array, so every
+    row gets the same NUMBER of codes; et_data is a list of lists and admits any numbers."""
+    pool = [abs(c) for c in CODES] if positive else CODES
+    pool = list(dict.fromkeys(pool))
+    while True:
+        k = rng.randint(1, 3)
+        sets = []
+        for ch in range(C):
+            kk = rng.randint(1, 3) if what == 'etdata' else k
+            sets.append(rng.sample(pool, kk))
+        if C >= 2 and rng.random() < 0.5:       # overlapping sets: one code in common, the others not
+            common_code = rng.choice(pool)
+            sets = [list(dict.fromkeys([common_code] + [c for c in s if c != common_code][:max(len(s) - 1, 0)])) for s in sets]
+        if len({tuple(sorted(s)) for s in sets}) > 1 and (what == 'etdata' or len({len(s) for s in sets}) == 1):
+            return sets
+
+
+def gen_series(rng, tier, what, big=False, positive=False, off=None, rowcodes=False, nonneg=False, nch=None):
     L = rng.randint(2, 8) if not big else rng.randint(9, 32)
     codes = rng.sample(CODES, rng.randint(1, 3))
     if rng.random() < 0.4 or positive:
         codes = list(dict.fromkeys(abs(c) for c in codes))
     off = rng.choice([0, 0, 0, 1, 2, 3]) if off is None else off
-    nch = rng.choice([0, 0, 1, 2, 3])
+    nch = rng.choice([0, 0, 1, 2, 3]) if nch is None else nch
+    if rowcodes:
+        nch = max(nch, 2)
     C = max(nch, 1)
-    evch = nch if (nch and rng.random() < 0.5) else 0
+    evch = nch if (nch and (rowcodes or rng.random() < 0.5)) else 0
     N = rng.randint(3 * L + off + 4, 6 * L + off + 30) if not big else rng.randint(4 * L + off, 6 * L + off + 40)
     separated = what != 'fir'
     ptm = 2 if (what == 'ets' and rng.random() < 0.8) else 1
+    rcodes = row_code_sets(rng, C, what, positive) if rowcodes else [codes] * C
+    if rowcodes and separated:
+        N += 3 * L * max(len(s) for s in rcodes)
     rows = []
     while len(rows) < (C if evch else 1):
-        ev = gen_placement(rng, N, L, off, codes, separated, per_type_min=ptm)
+        ev = gen_placement(rng, N, L, off, rcodes[len(rows)], separated, per_type_min=ptm)
         if ev is None:
             N += 2 * L + 2
             rows = []
             continue
         rows.append(ev)
-    base = sorted(codes)
     si, unit = rng.choice(SIS)
     resp = []
     for ch in range(C):
         r = {}
-        for c in base:
-            v = [rng.randint(-9, 9) for _ in range(L)]
+        for c in sorted(rcodes[ch]):
+            v = [rng.randint(0 if nonneg else -9, 9) for _ in range(L)]
             if all(x == 0 for x in v):
                 v[0] = 1
+            if nonneg and L >= 2 and v[0] <= min(v[1:]):     # a response that dips below its first sample
+                v[0], v[1] = max(v) + 1, min(v)
             r[str(c)] = [float(x) for x in v]
         resp.append(r)
     data = []
